@@ -17,7 +17,8 @@
       strategy on/off, its distance limit, MaxACMPolicyLinearDistance.
     - [cf]: GOMAXPROCS.  [outcomes .. cf : list fres]: EVERY value the call can
       produce under some interleaving of its goroutines: [FSome r] = (result,
-      nil), [FNone] = (nil, nil), [FHang] = the call never returns, [FPanic].
+      nil), [FNone] = (nil, nil), [FHang] = the call never returns (more results
+      sent than resultCh has room for; [C03_returns]: never), [FPanic].
       (An error return value does not exist: errors of a job are logged and
       dropped by the handler.)  Theorems quantify over all elements of the list.
     - [result]: [r_loc] locality, [r_reg] corrected ACM_POLICY_STATUS (if any),
@@ -39,7 +40,8 @@
     - [reachable decs]: some locality in {0, 3}, some [c] in reach, some [reg], [s]
       with [space decs ...].  [prop_decs st] = 0 .. MaxACMPolicyLinearDistance-1 is
       the search space of the property text; [lin_decs limit cf] is what
-      linearSearch.Process really tries under GOMAXPROCS = cf.
+      linearSearch.Process really tries under GOMAXPROCS = cf
+      ([C03_linear_search_space]: the same decrements).
     - [no_overflow]: len+1 < 2^63 and C(len+1, k) < 2^64 for the k searched
       (true for up to 62 measurements, [C03_ex_no_overflow]).
     - [acm_unique cf]: for no combination two different register candidates of the
@@ -48,8 +50,13 @@
       goroutine with the swaps stored by another: "TODO: fix consistency on
       control flow between orderSwapsResult and reg").
 
-    Findings (KNOWN_FINDINGS.json): C03-D21-linear-blocks ([_refuted] below),
-    C03-resultch-deadlock, C03-drop-all-not-searched. *)
+    Open finding (KNOWN_FINDINGS.json): C03-drop-all-not-searched ([_refuted]
+    below).  Repaired in /repo (section "fixed" there): C03-D21-linear-blocks
+    (92fa0d4: blocks clamped to [0, limit); [C03_linear_blocks_exact],
+    [C03_none], [C03_parallelism_*] lost the hypothesis GOMAXPROCS - 1 <= limit)
+    and C03-resultch-deadlock (1dc507b: resultCh has one slot per goroutine;
+    [C03_returns], and [FHang] left the conclusions of [C03_complete_partial] and
+    [C03_parallelism_partial]). *)
 From CSS Require Import Lib.Base Lib.Cases Model.Comb Proofs.Comb
      Model.PCR0Search Model.PCR0SearchCases Proofs.PCR0Search.
 
@@ -106,16 +113,24 @@ Theorem C03_linear_blocks_disjoint : forall limit cf i j d,
 Proof. exact in_block_inj. Qed.
 Print Assumptions C03_linear_blocks_disjoint.
 
-(** PARTIAL: only decrements below the limit are tried — needs GOMAXPROCS - 1 <= limit *)
-Theorem C03_linear_blocks_exact_partial : forall limit cf d,
-  1 <= cf -> cf - 1 <= limit -> In d (lin_decs limit cf) -> 0 <= d < limit.
+(** only decrements below the limit are tried, whatever GOMAXPROCS (any integer) and
+    whatever the limit (negative and zero limits try nothing) *)
+Theorem C03_linear_blocks_exact : forall limit cf d,
+  In d (lin_decs limit cf) -> 0 <= d < limit.
 Proof. exact lin_decs_exact. Qed.
-Print Assumptions C03_linear_blocks_exact_partial.
+Print Assumptions C03_linear_blocks_exact.
 
-(** finding C03-D21: limit 2 under GOMAXPROCS = 4 tries decrement 2; under 1 it tries 0, 1 *)
-Theorem C03_linear_blocks_exact_refuted : In 2 (lin_decs 2 4) /\ lin_decs 2 1 = [0; 1].
-Proof. exact lin_decs_beyond_witness. Qed.
-Print Assumptions C03_linear_blocks_exact_refuted.
+(** hence: the decrements tried are exactly 0 .. limit-1 ... *)
+Theorem C03_linear_search_space : forall limit cf d,
+  1 <= cf -> (In d (lin_decs limit cf) <-> 0 <= d < limit).
+Proof. exact lin_decs_iff. Qed.
+Print Assumptions C03_linear_search_space.
+
+(** ... and do not depend on the number of cores *)
+Theorem C03_linear_blocks_parallelism : forall limit cf1 cf2 d,
+  1 <= cf1 -> 1 <= cf2 -> (In d (lin_decs limit cf1) <-> In d (lin_decs limit cf2)).
+Proof. exact lin_decs_parallel. Qed.
+Print Assumptions C03_linear_blocks_parallelism.
 
 (** the goroutines of one level of Job.Execute visit valid combinations of the
     level's size only and, jointly, every one of them; SetCombinationID never panics *)
@@ -168,10 +183,20 @@ Print Assumptions C03_result_in_searched_space.
 
 (** * 4. Completeness: a reachable value is found *)
 
-(** PARTIAL: [acm_unique]; the call may also never return (finding
-    C03-resultch-deadlock); "fewer than MaxDisabledMeasurements dropped" is
+(** the call always returns: at every level resultCh has room for a result of
+    every goroutine started, for every log, setting and GOMAXPROCS *)
+Theorem C03_returns : forall D (deqb : D -> D -> bool),
+  (forall a b, deqb a b = true <-> a = b) ->
+  forall (pcr_init : Z -> D) (extend : D -> D -> D) (pcr0data : Z -> Z -> D) st
+         (log : list (meas D)) (target : D) cf,
+  ~ In FHang (outcomes D deqb pcr_init extend pcr0data st log target cf).
+Proof. exact no_hang. Qed.
+Print Assumptions C03_returns.
+
+(** PARTIAL: [acm_unique]; "fewer than MaxDisabledMeasurements dropped" is
     "fewer than min(len, MaxDisabledMeasurements)" in [in_reach] (finding
-    C03-drop-all-not-searched).  Never (nil, nil), never a panic. *)
+    C03-drop-all-not-searched).  Every outcome is a result: never (nil, nil),
+    never a panic, never a hang. *)
 Theorem C03_complete_partial : forall D (deqb : D -> D -> bool),
   (forall a b, deqb a b = true <-> a = b) ->
   forall (pcr_init : Z -> D) (extend : D -> D -> D) (pcr0data : Z -> Z -> D) st
@@ -180,7 +205,7 @@ Theorem C03_complete_partial : forall D (deqb : D -> D -> bool),
   acm_unique D deqb pcr_init extend pcr0data st log target cf ->
   reachable D pcr_init extend pcr0data st log target (prop_decs st) ->
   forall o, In o (outcomes D deqb pcr_init extend pcr0data st log target cf) ->
-    (exists r, o = FSome r) \/ o = FHang.
+    exists r, o = FSome r.
 Proof. exact complete. Qed.
 Print Assumptions C03_complete_partial.
 
@@ -192,14 +217,6 @@ Theorem C03_outcomes_nonempty : forall D (deqb : D -> D -> bool) (pcr_init : Z -
 Proof. exact outcomes_nonempty. Qed.
 Print Assumptions C03_outcomes_nonempty.
 
-(** finding C03-resultch-deadlock: PCR0_DATA + 7 identical measurements, one of
-    them dropped, GOMAXPROCS = 5: seven goroutines succeed, resultCh has room for
-    six, wg.Wait() never returns *)
-Theorem C03_complete_hang_refuted :
-  reachable term Init Ext DataH st_h log_h tgt_h (prop_decs st_h) /\
-  In FHang (outcomes term term_eqb Init Ext DataH st_h log_h tgt_h 5).
-Proof. exact hang_witness. Qed.
-Print Assumptions C03_complete_hang_refuted.
 
 (** finding C03-drop-all-not-searched: one measurement, MaxDisabledMeasurements = 4,
     requested value = PCR0 after TPMInit(0) (the measurement dropped): (nil, nil) *)
@@ -223,53 +240,57 @@ Theorem C03_none_searched : forall D (deqb : D -> D -> bool),
 Proof. exact none_searched. Qed.
 Print Assumptions C03_none_searched.
 
-(** PARTIAL: for the search space of the property text it needs GOMAXPROCS - 1 <= limit *)
-Theorem C03_none_partial : forall D (deqb : D -> D -> bool),
+(** the same for the search space of the property text, under every GOMAXPROCS *)
+Theorem C03_none : forall D (deqb : D -> D -> bool),
   (forall a b, deqb a b = true <-> a = b) ->
   forall (pcr_init : Z -> D) (extend : D -> D -> D) (pcr0data : Z -> Z -> D) st
          (log : list (meas D)) (target : D) cf,
-  1 <= cf -> cf - 1 <= lin_limit st -> no_overflow D st log ->
+  1 <= cf -> no_overflow D st log ->
   ~ reachable D pcr_init extend pcr0data st log target (prop_decs st) ->
   outcomes D deqb pcr_init extend pcr0data st log target cf = [FNone].
 Proof. exact none. Qed.
-Print Assumptions C03_none_partial.
+Print Assumptions C03_none.
 
 (** * 6. Every CPU-parallelism setting *)
 
-(** PARTIAL (hypotheses as above): a result under [cf1] excludes (nil, nil) under [cf2] *)
+(** the space searched is the space of the property text under every GOMAXPROCS,
+    hence the same under any two *)
+Theorem C03_parallelism_space : forall D (deqb : D -> D -> bool),
+  (forall a b, deqb a b = true <-> a = b) ->
+  forall (pcr_init : Z -> D) (extend : D -> D -> D) (pcr0data : Z -> Z -> D) st
+         (log : list (meas D)) (target : D) cf,
+  1 <= cf ->
+  (reachable D pcr_init extend pcr0data st log target (lin_decs (lin_limit st) cf) <->
+   reachable D pcr_init extend pcr0data st log target (prop_decs st)).
+Proof. exact reachable_searched_iff. Qed.
+Print Assumptions C03_parallelism_space.
+
+(** PARTIAL ([acm_unique]): a result under [cf1] excludes (nil, nil) under [cf2];
+    every outcome under [cf2] is a result *)
 Theorem C03_parallelism_partial : forall D (deqb : D -> D -> bool),
   (forall a b, deqb a b = true <-> a = b) ->
   forall (pcr_init : Z -> D) (extend : D -> D -> D) (pcr0data : Z -> Z -> D) st
          (log : list (meas D)) (target : D) cf1 cf2 r,
-  1 <= cf1 -> cf1 - 1 <= lin_limit st -> 1 <= cf2 -> no_overflow D st log ->
+  1 <= cf1 -> 1 <= cf2 -> no_overflow D st log ->
   acm_unique D deqb pcr_init extend pcr0data st log target cf2 ->
   In (FSome r) (outcomes D deqb pcr_init extend pcr0data st log target cf1) ->
   forall o, In o (outcomes D deqb pcr_init extend pcr0data st log target cf2) ->
-    (exists r', o = FSome r') \/ o = FHang.
+    exists r', o = FSome r'.
 Proof. exact parallelism. Qed.
 Print Assumptions C03_parallelism_partial.
 
+(** PARTIAL ([acm_unique]): (nil, nil) under [cf1] is (nil, nil) under [cf2] *)
 Theorem C03_parallelism_none_partial : forall D (deqb : D -> D -> bool),
   (forall a b, deqb a b = true <-> a = b) ->
   forall (pcr_init : Z -> D) (extend : D -> D -> D) (pcr0data : Z -> Z -> D) st
          (log : list (meas D)) (target : D) cf1 cf2,
-  1 <= cf1 -> 1 <= cf2 -> cf2 - 1 <= lin_limit st -> no_overflow D st log ->
+  1 <= cf1 -> 1 <= cf2 -> no_overflow D st log ->
   acm_unique D deqb pcr_init extend pcr0data st log target cf1 ->
   outcomes D deqb pcr_init extend pcr0data st log target cf1 = [FNone] ->
   outcomes D deqb pcr_init extend pcr0data st log target cf2 = [FNone].
 Proof. exact parallelism_none. Qed.
 Print Assumptions C03_parallelism_none_partial.
 
-(** finding C03-D21: MaxACMPolicyLinearDistance = 2, register off by 2 (outside
-    "decreased by less than the linear limit"): nothing under GOMAXPROCS = 1, a
-    result with the register decreased by 2 under GOMAXPROCS = 4 *)
-Theorem C03_parallelism_refuted :
-  lin_limit st_d21 = 2 /\
-  outcomes term term_eqb Init Ext DataH st_d21 log_d21 tgt_d21 1 = [FNone] /\
-  outcomes term term_eqb Init Ext DataH st_d21 log_d21 tgt_d21 4
-    = [FSome (mkResult 3 (Some (R0 - 2)) [] [])].
-Proof. exact d21_witness. Qed.
-Print Assumptions C03_parallelism_refuted.
 
 (** * Hypotheses are satisfiable *)
 
@@ -286,6 +307,26 @@ Example C03_ex_acm_unique : forall D deqb pcr_init extend pcr0data st (log : lis
   acm_unique D deqb pcr_init extend pcr0data st log target 1.
 Proof. exact acm_unique_single. Qed.
 
-(** a reachable request with 8 measurements (one dropped) *)
-Example C03_ex_reachable : reachable term Init Ext DataH st_h log_h tgt_h (prop_decs st_h).
-Proof. exact (proj1 hang_witness). Qed.
+(** a reachable request with 8 measurements (one dropped); it is the witness of the
+    repaired finding C03-resultch-deadlock: under GOMAXPROCS = 5 the channel has
+    room for 9 results, 7 goroutines succeed, every outcome is a result *)
+Example C03_ex_reachable :
+  reachable term Init Ext DataH st_h log_h tgt_h (prop_decs st_h) /\
+  res_cap (amount64 8 1) 5 = 9 /\
+  length (filter is_fsome (outcomes term term_eqb Init Ext DataH st_h log_h tgt_h 5)) = 7%nat /\
+  forallb is_fsome (outcomes term term_eqb Init Ext DataH st_h log_h tgt_h 5) = true.
+Proof. exact hang_fixed_witness. Qed.
+
+(** the witness of the repaired finding C03-D21: MaxACMPolicyLinearDistance = 2;
+    register off by 2 (outside the space): (nil, nil) under every GOMAXPROCS tried;
+    off by 1: the same result under every one of them *)
+Example C03_ex_d21_fixed :
+  lin_limit st_d21 = 2 /\
+  (forall cf, In cf [1; 2; 3; 4; 5; 16; 64] ->
+     outcomes term term_eqb Init Ext DataH st_d21 log_d21 tgt_d21 cf = [FNone] /\
+     outcomes term term_eqb Init Ext DataH st_d21 log_d21 tgt_d21_in cf
+       = [FSome (mkResult 3 (Some (R0 - 1)) [] [])]).
+Proof. exact d21_fixed_witness. Qed.
+
+Example C03_ex_linear_limit_2 : lin_decs 2 4 = [0; 1] /\ lin_decs 2 1 = [0; 1].
+Proof. exact lin_decs_d21_fixed. Qed.
